@@ -581,7 +581,7 @@ class StmtMixin:
                 st = st.set_var(nm, nv)
         for (cname, field) in sorted(heap):
             fty = self.classes[cname].fields[field]
-            arr = z3.FreshConst(z3.ArraySort(T.ObjT(cname).sort(), fty.sort()), f"{cname}.{field}")
+            arr = z3.FreshConst(z3.ArraySort(self.objT(cname).sort(), fty.sort()), f"{cname}.{field}")
             st = self.assume_heap_inv(st.set_heap((cname, field), arr), cname, field, fty)
         for g in sorted(ghost):
             nv, st = self.fresh(self.ghost_decl[g], g, st)
